@@ -95,5 +95,10 @@ LinesNonDecreasing == (Done /\ Result.k = "ok") =>
 \* generated line = number of preceding ';'
 LineIsSemiCount == phase = "build" \/ st.line = Cardinality({i \in 1..pos : text[i] = SEMI}) \/ st.err # ""
 
+\* the exact-arithmetic decoder agrees with the small-integer machine wherever that one is defined
+ExactAgrees == Done =>
+    LET r == Result  v == DecodeV(text, nsrc, nnm) IN
+    /\ (r.k = "err") = (v.k = "err")
+    /\ (r.k = "ok" => v.k = "ok" /\ v.toks = [i \in DOMAIN r.toks |-> VOfTok(r.toks[i])])
 EmitCase == Done => PrintT("CASE " \o ToJson([op |-> "decode", text |-> text, nsrc |-> nsrc, nnm |-> nnm]))
 =============================================================================
